@@ -1,4 +1,5 @@
 import ZnVerif.Properties.C01
+import ZnVerif.Properties.C03
 open ZnVerif.Properties.C01
 #print axioms and_short_circuit
 #print axioms or_short_circuit
@@ -25,3 +26,8 @@ open ZnVerif.Properties.C01
 #print axioms spec_div_zero
 #print axioms spec_floor_div
 #print axioms spec_modulo
+
+-- precedence / associativity / non-chaining of comparisons at token level, operator synonym tables (Properties/C03.lean)
+#print axioms ZnVerif.Properties.C03.parse_tokens_roundtrip_partial
+#print axioms ZnVerif.Properties.C03.no_chain_of_comparisons_witness
+#print axioms ZnVerif.Properties.C03.synonym_tables
